@@ -40,4 +40,20 @@ def afterReduceD (names : List String) (bugName extraName : Nat → String) (tid
     (disk : List Bytes) : FS :=
   writeDisk (afterReduce names bugName extraName tidy fs log) names disk
 
+/-! ### the front end's `--to-utf8` step (`cvise.py`, before the `TestManager` is built)
+
+Every test case whose bytes are not already ASCII / UTF-8 (`isUtf8`, the verdict of the encoding detector) is rewritten with
+its conversion (`conv`).  `backupFirst` is read from the source: the unconverted bytes are copied to `X.orig` first, under
+the rule of the regular backup (not with `--tidy`, never over an existing `X.orig`). -/
+def toUtf8Step (backupFirst tidy : Bool) (isUtf8 : Bytes → Bool) (conv : Bytes → Bytes) (fs : FS) : List String → FS
+  | [] => fs
+  | f :: rest =>
+    match lookupFS fs f with
+    | none => toUtf8Step backupFirst tidy isUtf8 conv fs rest
+    | some b =>
+      if isUtf8 b then toUtf8Step backupFirst tidy isUtf8 conv fs rest
+      else
+        let fs1 := if backupFirst && !tidy && (lookupFS fs (f ++ ".orig")).isNone then fs ++ [(f ++ ".orig", b)] else fs
+        toUtf8Step backupFirst tidy isUtf8 conv (writeFS fs1 f (conv b)) rest
+
 end Cvise.W
